@@ -4,6 +4,8 @@
 //              fault     open + a few calls under a MemVIO fault plan (fault at callback i of kind k), so opens fail at every stage
 // oracle after every case: LeakSanitizer's recoverable check is clean, /proc/self/fd is what it was, the private TMPDIR is empty,
 // sf_close returned 0 whenever the route's close succeeds.
+#include <sys/resource.h>
+#include <signal.h>
 #include "vf_file.hpp"
 extern "C" int __lsan_do_recoverable_leak_check (void) ;
 using namespace vf ;
@@ -133,7 +135,16 @@ static Result run_case (const Case &c)
 				else { sf_command (o.f, 0x7654, nullptr, 0) ; sf_seek (o.f, -5, SEEK_SET) ; short one ; sf_read_short (o.f, &one, -1) ; }
 			}
 		}
+		// one real-file write history in three is closed while the file system refuses every further byte (RLIMIT_FSIZE 0: write(2) fails
+		// with EFBIG) - whatever sf_close still wanted to write fails, and it must release everything all the same
+		bool diskfull = o.f && route != "mem" && mode != SFM_READ && (c.geti ("seed") % 3) == 0 ;
+		struct rlimit oldlim ;
+		if (diskfull) { signal (SIGXFSZ, SIG_IGN) ; getrlimit (RLIMIT_FSIZE, &oldlim) ; struct rlimit nl = oldlim ; nl.rlim_cur = 0 ; if (setrlimit (RLIMIT_FSIZE, &nl) != 0) diskfull = false ; }
 		closebad = close_route (o) ;
+		if (diskfull)
+		{	setrlimit (RLIMIT_FSIZE, &oldlim) ; r.classes.push_back ("close:file_system_full") ;
+			if (closebad.compare (0, 17, "sf_close returned") == 0) closebad.clear () ;	// the failed write may be reported; descriptors and memory are checked below
+		}
 	}
 	else if (kind == "malformed" && (s.format & SF_FORMAT_TYPEMASK) == SF_FORMAT_SD2)
 	{	// SD2 keeps everything in a resource fork ("._name" next to the data file): write a valid pair by path, damage the fork, open by path
